@@ -81,6 +81,21 @@ CLAIMED["C13"] = {
     "technique": "deterministic simulation of a multi-party signing protocol with message-fault injection and RNG seam; independent BIP340 verification",
 }
 
+CLAIMED["C10"] = {
+    "category": "exploration",
+    "text": "A signing ceremony of coordinator (creator/updater/combiner/finaliser/extractor) and n signers, all running the real PSBT code, over an explicit delivery schedule (star, chain, gossip) with duplicated, stale, lost and bit-flipped messages, cross-talk from another spend, crash-restart from the last stored serialisation, and Byzantine signers: every emitted message is a codec fixed point with a non-witness unsigned transaction (Q1, Q2); the combiner's bytes and the extracted transaction equal those of the canonical schedule for the same signer set (Q3, library against library); a transaction is extracted exactly when every input has the threshold of script-key signatures, and it is authorised per the reference (Q4); messages with a partial signature the reference finds invalid are rejected at load (Q5); different transactions do not combine (Q6); fault-free ceremonies complete (Q7). All signer subsets and arrival orders of a 2-of-3 are enumerated.",
+    "design_ref": "DESIGN.md 5.4, 6 (C10)",
+    "note": "Trusted: ref/psbtmap.py, ref/stdverify.py, ref/secp.py, ref/sighash.py, ref/wallet.py. Byte-equality with the canonical schedule is demanded only when no corrupted message was accepted. pecc is slow: ~10 k runs/hour; quorums up to 3 (thorough: 4), 1-3 inputs.",
+    "technique": "deterministic simulation of a multi-party PSBT workflow with message-fault injection and crash-restart; confluence against a canonical schedule plus reference verification",
+}
+CLAIMED["C11"] = {
+    "category": "exploration",
+    "text": "An honest signer reviews (describe_basic_multisig) every PSBT it receives from a coordinator whose message is honest, tampered in flight with one entry of the property's catalogue, or hit by random byte corruption, before signing: the summary's fee and totals equal the stub's ground truth and are conserved (R1); every output labelled change commits, in the received unsigned transaction, to the wallet's m-of-n script made of exactly one derived key per cosigner (R2); honest PSBTs are summarised (R3). The catalogue is enumerated against P2SH and P2WSH wallets in the quick tier.",
+    "design_ref": "DESIGN.md 5.4, 6 (C11)",
+    "note": "Weakest fit for this technique: a per-message check in a two-party setting, no ordering dimension. Trusted: ref/wallet.py, ref/psbtmap.py. One open known finding (witness-UTXO amounts are not verifiable). p2sh-p2wsh is not supported by the summary and not exercised.",
+    "technique": "deterministic simulation of a coordinator-signer exchange with Byzantine-coordinator tampering and byte corruption in flight; ground-truth oracle from an independent wallet model",
+}
+
 PENDING = {}
 
 
